@@ -42,6 +42,8 @@ type Node struct {
 	Inc       int
 	deadInc   int
 	steadyInc int // incarnation whose sync loop has finished its start-up phase
+	// StartedAt is the simulated time at which the current incarnation started
+	StartedAt time.Duration
 	// graceful cancellation (C17)
 	cancelledInc int
 	cancelledAt  time.Duration
@@ -120,6 +122,7 @@ func (n *Node) Start() error {
 	}
 	n.Inc++
 	inc := n.Inc
+	n.StartedAt = n.sim.Now()
 	ctx := context.WithValue(context.Background(), nodeKeyT{}, &incRef{node: n, inc: inc})
 	ctx, cancel := context.WithCancel(ctx)
 	n.ctx, n.cancel = ctx, cancel
